@@ -1019,6 +1019,10 @@ def _set_default_options(options, n):
             f"The number of interpolation points must be at most "
             f"{((n + 1) * (n + 2)) // 2}."
         )
+    if Options.NPT in options and options[Options.NPT] < n + 1:
+        raise ValueError(
+            f"The number of interpolation points must be at least {n + 1}."
+        )
     options.setdefault(Options.NPT.value, DEFAULT_OPTIONS[Options.NPT](n))
     options[Options.NPT.value] = int(options[Options.NPT])
     if Options.MAX_EVAL in options and options[Options.MAX_EVAL] <= 0:
